@@ -135,6 +135,20 @@ func (c *FnCtx) sev(sc *specCtx, e *SExpr) *Term {
 		if f, ok := c.eng.specFuncs[e.Name]; ok && len(f.Params) == 0 {
 			return c.applySpecFunc(sc, f, nil, e)
 		}
+		// a local named in a loop invariant was renamed: invariants are proof hints, so re-binding the name to the
+		// variable declared at the same place (the n-th local of the function, recorded in contracts/loops.lock) is
+		// always sound - if the guess is wrong the proof fails, it cannot pass wrongly
+		// (a renamed receiver, parameter or named result is re-bound in every clause: contracts bind them by position)
+		if len(c.inlineStack) == 0 {
+			if ord, ok := c.eng.localLock[c.fi.Key][e.Name]; ok && (c.hintMode > 0 || (ord >= 0 && ord < c.signatureVars())) {
+				if v := c.localByOrdinal(ord); v != nil {
+					if _, inScope := sc.st.vars[v]; inScope {
+						c.assumptionsUsed["renamed local re-bound in a loop invariant by declaration position: "+e.Name+" -> "+v.Name()] = true
+						return c.readVar(sc.st, v, nil)
+					}
+				}
+			}
+		}
 		c.specErr(e, "unknown identifier %s", e.Name)
 	case "old":
 		if sc.old == nil {
@@ -1084,3 +1098,56 @@ func (c *FnCtx) seqContains(sq, x *Term) *Term {
 
 // typeTagType: the spec-level type of dynamic type tags (sort TypeTag).
 var typeTagType = types.NewNamed(types.NewTypeName(0, nil, "typetag", nil), types.Typ[types.Int], nil)
+
+
+// localsInOrder: the local variables (parameters, results, := and var declarations) of the function in source order.
+func localsInOrder(fi *FuncInfo) []*types.Var {
+	var out []*types.Var
+	if fi == nil || fi.Decl == nil {
+		return nil
+	}
+	info := fi.Pkg.TypesInfo
+	ast.Inspect(fi.Decl, func(n ast.Node) bool {
+		if id, ok := n.(*ast.Ident); ok {
+			if v, ok := info.Defs[id].(*types.Var); ok && !v.IsField() {
+				out = append(out, v)
+			}
+		}
+		return true
+	})
+	return out
+}
+
+func (c *FnCtx) localByOrdinal(ord int) *types.Var {
+	ls := localsInOrder(c.fi)
+	if ord >= 0 && ord < len(ls) {
+		return ls[ord]
+	}
+	return nil
+}
+
+
+// signatureVars: number of variables declared by the function's signature (receiver, parameters, named results); they
+// come first in localsInOrder.
+func (c *FnCtx) signatureVars() int {
+	sig, ok := c.fi.Obj.Type().(*types.Signature)
+	if !ok {
+		return 0
+	}
+	n := 0
+	named := func(v *types.Var) bool { return v != nil && v.Name() != "" }
+	if named(sig.Recv()) {
+		n++
+	}
+	for i := 0; i < sig.Params().Len(); i++ {
+		if named(sig.Params().At(i)) {
+			n++
+		}
+	}
+	for i := 0; i < sig.Results().Len(); i++ {
+		if named(sig.Results().At(i)) {
+			n++
+		}
+	}
+	return n
+}
